@@ -557,7 +557,9 @@ impl World {
     }
 
     async fn publish(&mut self, k: Option<u64>) -> Result<String, String> {
-        self.take_available();
+        if self.blocked_rem == 0 {
+            self.take_available();
+        }
         let avail = self.sent - self.published;
         let k = match k {
             Some(k) => k.min(avail),
@@ -789,7 +791,7 @@ impl World {
             s.closed_printed = true;
         }
         // up to the probe only (later items belong to the next recv)
-        let new: Vec<Itm> = l.items[s.printed..].to_vec();
+        let new: Vec<Itm> = l.items[s.printed..].iter().filter(|i| !matches!(i, Itm::Sentinel(_))).cloned().collect();
         s.printed = l.items.len();
         Ok(show_items(&new, closed_now))
     }
@@ -814,6 +816,8 @@ impl World {
             let mut pos = 0;
             let mut base: Option<u64> = None;
             let mut outside = false;
+            // resume point beyond the head of the log: outside the property's quantifier too
+            let mut beyond = false;
             match s.mode {
                 Mode::New => {
                     if items.is_empty() {
@@ -868,6 +872,7 @@ impl World {
                 Mode::From(n) => {
                     base = Some(n);
                     outside = n < s.pruned_at_attach;
+                    beyond = n > s.committed_at_attach;
                 }
             }
             let mut last = base;
@@ -881,7 +886,9 @@ impl World {
                             self.fails.push(format!("stream: sub {sid}: change {k} after the error event"));
                         } else if let Some(l) = last {
                             if *k != l + 1 {
-                                if first_change && outside {
+                                if beyond && *k <= l {
+                                    // the client claimed ids that did not exist yet
+                                } else if first_change && outside {
                                     // F14: resume point older than the retained log (outside the property's quantifier)
                                 } else if *k <= l {
                                     dups += 1;
@@ -1202,6 +1209,7 @@ async fn run_case(ops: &[String], dir: &std::path::Path) -> Result<Outcome, Stri
                 Mode::New => "attach-new".into(),
                 Mode::Skip => "attach-skip".into(),
                 Mode::From(n) if n < s.pruned_at_attach => "attach-from-outside-log".into(),
+                Mode::From(n) if n > s.committed_at_attach => "attach-from-beyond-head".into(),
                 Mode::From(_) => "attach-from".into(),
             });
             if s.stuck {
